@@ -951,27 +951,52 @@ def gen_workspace(rng):
     return poly([(0, 0), (w, 0), (w, h), (0, h)]) + ".union(" + poly([(w + 1, 0), (2 * w + 1, 0), (2 * w + 1, h), (w + 1, h)]) + ")"
 
 
-def gen_size(rng):
+ANISO = [  # shapes whose planar inradius, inradius and radius differ widely (mostly flat: the height is the smallest
+    # dimension, so a radius that is valid in the plane is not valid once the object is rotated out of it)
+    ", with width 2, with length 2, with height 0.2", ", with width Range(2, 3), with length 2, with height 0.2",
+    ", with shape CylinderShape(dimensions=(2,2,0.2))", ", with width 3, with length 0.4, with height 3",
+    ", with width 2, with length 2.5, with height Range(0.1, 0.4)", ", with width 3, with length 2, with height 0.1",
+    ", with width 0.2, with length 2, with height 2",
+]
+ORIENT = [  # orientations that take the object out of the plane (roll / pitch / both, fixed and random)
+    ", with roll 90 deg", ", with pitch 90 deg", ", facing (Range(0, 360) deg, 0, 90 deg)", ", with roll Range(80, 90) deg",
+    ", facing (0, 90 deg, 90 deg)", ", with roll -90 deg", ", facing (Range(0, 360) deg, 90 deg, 0)",
+    ", facing (30 deg, 0, Range(60, 90) deg)", ", with pitch Range(60, 90) deg", ", facing (0, 0, 45 deg)",
+    ", facing (90 deg, 0, 90 deg)",
+]
+
+
+def gen_size(rng, aniso=None):
+    if aniso is not None:
+        return ANISO[aniso % len(ANISO)]
     return rng.choice([
         "", "", ", with width 2, with length 2", ", with width Range(1, 2), with length 2",
         ", with width Range(0.5, 3), with length Range(1, 2), with height 0.5", ", with width 3, with length 1, with height 4",
         ", with shape SpheroidShape(dimensions=(2,2,2))", ", with shape CylinderShape(dimensions=(2,2,1))",
+        ", with width 2, with length 2, with height 0.2",
     ])
 
 
-def gen_facing(rng):
+def gen_facing(rng, oriented=None):
+    if oriented is not None:
+        return ORIENT[oriented % len(ORIENT)]
     return rng.choice(["", "", ", facing Range(0, 360) deg", ", facing 30 deg", ", facing (Range(0,360) deg, Range(-20,20) deg, 0)",
-                       ", facing (10 deg, 15 deg, 0)"])
+                       ", facing (10 deg, 15 deg, 0)", ", with roll 90 deg", ", facing (0, Range(-10, 10) deg, Range(-30, 30) deg)"])
 
 
-def gen_contain(rng):
+def gen_contain(rng, v=0):
+    """v odd: an anisotropic object rotated out of the plane (the radius used for the erosion must be valid for the
+    object's actual footprint), cycling through the ways the base point is specified; v even: everything random."""
     ws = gen_workspace(rng)
     lines = [f"workspace = Workspace({ws})"]
-    n = rng.choice([1, 1, 2])
+    oriented = v % 2 == 1
+    n = 1 if oriented else rng.choice([1, 1, 2])
     for i in range(n):
         name = "ego" if i == 0 else f"o{i}"
         spec = rng.choice(["in workspace", "in workspace", "on workspace", "offset", "offsetR", "incont"])
-        extra = gen_size(rng) + gen_facing(rng)
+        if oriented:
+            spec = ["in workspace", "on workspace", "incont", "in workspace", "offset"][(v // 2) % 5]
+        extra = (gen_size(rng, aniso=v // 2) + gen_facing(rng, oriented=v // 2)) if oriented else (gen_size(rng) + gen_facing(rng))
         if spec == "on workspace" and rng.random() < 0.5:
             extra += rng.choice([", with baseOffset (0.1, 0, 0.5)", ", with baseOffset (0.3, 0.2, 0.5), with contactTolerance 0",
                                  ", with contactTolerance 0.3"])
@@ -1010,7 +1035,7 @@ REQ_RH = [
 ]
 
 
-def gen_requirement(rng, other, kinds=("dist", "rh"), around=None):
+def gen_requirement(rng, other, kinds=("dist", "rh"), around=None, form_idx=None):
     k = rng.choice(kinds)
     if k == "dist":
         return "require " + rng.choice(REQ_DIST).format(o=other, d=rng.choice([3, 5, 8, 15, 35]))
@@ -1033,11 +1058,14 @@ def gen_requirement(rng, other, kinds=("dist", "rh"), around=None):
                  ("(relative heading of {o}) == {x} deg", r),
                  ("(relative heading of {o}) != {x} deg", r + 7)]
         f, x = rng.choice(forms)
+        if form_idx is not None:  # stratified: the abs forms with an offset first, then the others in turn
+            order = [6, 5, 7, 0, 8, 9, 3, 11, 1, 2, 4, 10, 12]
+            f, x = forms[order[form_idx % len(order)]]
         return "require " + f.format(o=other, x=(f"({x})" if x < 0 else x), b=rng.choice([15, 20, 45]))
     return "require " + form.format(o=other, a=a, b=rng.choice([5, 20, 45, 90]))
 
 
-def gen_heading(rng):
+def gen_heading(rng, v=0):
     ncell = rng.choice([2, 2, 3])
     xs = [0, 20, 50]
     hs = [rng.choice([0, 90, 180, -90, 45, 170, -170, 179, -135, 30]) for _ in range(ncell)]
@@ -1057,11 +1085,17 @@ def gen_heading(rng):
                        ", with visibleDistance 32"])
     lines.append(f"ego = new Object in union, {fac()}{egox}, with allowCollisions True")
     link = rng.choice(["reqvis", "reqvis", "visfrom", "visfrom", "dist", "dist", "dist", "none"])
+    unbounded = v % 4 == 1 or rng.random() < 0.08
+    if unbounded:  # a size without a finite upper bound: the visibility bound on the distance is then unknown
+        link = ["reqvis", "visfrom"][(v // 4) % 2]
     ox = {"reqvis": ", with requireVisible True", "visfrom": ", visible from ego", "dist": "", "none": ""}[link]
+    if unbounded:
+        ox += rng.choice([", with width Normal(1, 0.1)", ", with length Normal(1.5, 0.2)",
+                          ", with width Normal(1, 0.1), with height 1"])
     lines.append(f"other = new Object in union, {fac()}{ox}, with allowCollisions True")
     i, j = rng.sample(range(ncell), 2)
     r = (hs[j] - hs[i] + 180) % 360 - 180  # relative heading of an object in cell j seen from one in cell i
-    lines.append(gen_requirement(rng, "other", kinds=("rh",), around=r))
+    lines.append(gen_requirement(rng, "other", kinds=("rh",), around=r, form_idx=v))
     if link == "dist":
         lines.append("require " + rng.choice(REQ_DIST).format(o="other", d=rng.choice([25, 35, 45, 70])))
     if rng.random() < 0.2:
@@ -1100,9 +1134,21 @@ def gen_mesh(rng):
     return "\n".join(lines) + "\n", {"family": "mesh"}
 
 
-def gen_program(rng):
-    fam = rng.choices(["contain", "heading", "visibility", "mesh"], [5, 5, 4, 2])[0]
-    return {"contain": gen_contain, "heading": gen_heading, "visibility": gen_visibility, "mesh": gen_mesh}[fam](rng)
+FAMILY_CYCLE = ["contain", "heading", "visibility", "contain", "heading", "mesh"]
+
+
+def gen_program(rng, i=None):
+    """i-th program of a run: families in a fixed rotation, the boundary variants of a family in turn (`v`)"""
+    if i is None:
+        fam = rng.choices(["contain", "heading", "visibility", "mesh"], [5, 5, 4, 2])[0]
+        return {"contain": gen_contain, "heading": gen_heading, "visibility": gen_visibility, "mesh": gen_mesh}[fam](rng)
+    fam = FAMILY_CYCLE[i % len(FAMILY_CYCLE)]
+    v = 2 * (i // len(FAMILY_CYCLE)) + (1 if i % len(FAMILY_CYCLE) >= 3 else 0)
+    if fam == "contain":
+        return gen_contain(rng, v)
+    if fam == "heading":
+        return gen_heading(rng, v)
+    return {"visibility": gen_visibility, "mesh": gen_mesh}[fam](rng)
 
 
 # =========================================================================== program-level oracle (child process)
@@ -1487,8 +1533,10 @@ class Pool:
                 pass
         self.procs = []
 
-    def run(self, fn, args, timeout):
-        """results in order; a task that exceeds `timeout` seconds (after its worker is ready) is killed."""
+    def run(self, fn, args, timeout, deadline=None, grace=12):
+        """results in order; a task that exceeds `timeout` seconds (after its worker is ready) is killed.
+        `deadline` (absolute time): no task is handed out after it ({"status": "not-run"}); tasks still running
+        `grace` seconds after it are killed ({"status": "cutoff"}).  Neither is ever a verdict."""
         import select
         results = [None] * len(args)
         pending = list(enumerate(args))[::-1]
@@ -1497,6 +1545,13 @@ class Pool:
             self.procs.append(self._spawn())
         done = 0
         while done < len(args):
+            if deadline is not None and pending and time.time() > deadline:
+                for i, _ in pending:
+                    results[i] = {"status": "not-run"}
+                    done += 1
+                pending = []
+                if done >= len(args):
+                    break
             # hand out work
             for w in self.procs:
                 if w["ready"] and w["task"] is None and pending:
@@ -1527,11 +1582,13 @@ class Pool:
             now = time.time()
             for k, w in enumerate(self.procs):
                 dead = w.get("dead") or w["p"].poll() is not None
-                late = w["task"] is not None and now - w["t0"] > timeout
+                cut = w["task"] is not None and deadline is not None and now > deadline + grace
+                late = w["task"] is not None and (now - w["t0"] > timeout or cut)
                 slow_start = not w["ready"] and now - w["born"] > 900
                 if dead or late or slow_start:
                     if w["task"] is not None:
-                        results[w["task"]] = ({"status": "timeout", "after": timeout} if late and not dead else
+                        results[w["task"]] = ({"status": "cutoff" if cut and now - w["t0"] <= timeout else "timeout",
+                                               "after": round(now - w["t0"])} if late and not dead else
                                               {"status": "harness-error", "detail": "worker process died"})
                         done += 1
                     try:
@@ -1546,7 +1603,10 @@ class Pool:
                         pass
                     if slow_start and not any(x["ready"] for x in self.procs):
                         raise Infra("worker processes do not start (machine overloaded?)")
-                    self.procs[k] = self._spawn()
+                    self.procs[k] = self._spawn() if pending else None
+            self.procs = [w for w in self.procs if w is not None]
+            if not self.procs and done < len(args):
+                self.procs.append(self._spawn())
         return results
 
 
@@ -1556,44 +1616,56 @@ _pool = None
 def pool():
     global _pool
     if _pool is None:
-        n = int(os.environ.get("C08_WORKERS") or min(12, max(2, (os.cpu_count() or 4) - 2)))  # (override: development)
-        try:
-            if os.getloadavg()[0] > 2 * (os.cpu_count() or 4):  # somebody else is using the machine
-                n = max(2, n // 2)
-        except OSError:
-            pass
-        _pool = Pool(n)
+        # the machine is shared: three worker processes unless told otherwise
+        n = int(os.environ.get("VERIF_C08_PROCS") or os.environ.get("C08_WORKERS") or 3)
+        _pool = Pool(max(1, n))
     return _pool
 
 
-def run_many(fn, args, timeout, workers=None):
-    return pool().run(fn, args, timeout)
+def run_many(fn, args, timeout, deadline=None):
+    return pool().run(fn, args, timeout, deadline=deadline)
 
 
 def run_isolated(fn, arg, timeout):
     return pool().run(fn, [arg], timeout)[0]
 
 
+def tiered(ctx, quick, escalated, thorough):
+    """quick tier / quick tier with escalated budgets (a fingerprint changed or a translator tie is lost) / thorough"""
+    if os.environ.get("C08_DEV_QUICK"):
+        return quick
+    if ctx.tier == "thorough":
+        return thorough
+    return escalated if ctx.escalated else quick
+
+
 def programs_start(ctx):
     """Generate the programs (all random choices are made here, in the main thread) and start analysing them in the
-    worker pool while the main thread runs the correspondence checks."""
+    worker pool while the main thread runs the correspondence checks.  The phase is time-boxed by wall clock: programs
+    not started when the box ends are reported as `not-run`, programs still running shortly after it as `cutoff`;
+    neither is a verdict.  The generator is stratified (`gen_program(rng, i)`), so that the programs that do run cover
+    every family and every boundary variant first."""
     import threading
     rng = ctx.rng
-    nprog = int(os.environ.get("C08_NPROG") or ctx.budget(60, 800))  # (override: development only)
-    iters, want = ctx.budget(3000, 15000), ctx.budget(200, 1000)
+    nprog = int(os.environ.get("C08_NPROG") or tiered(ctx, 72, 240, 900))  # (override: development only)
+    iters, want = tiered(ctx, 3000, 6000, 15000), tiered(ctx, 120, 200, 1000)
+    seconds = tiered(ctx, 4, 6, 24)
     tasks = []
-    for _ in range(nprog):
-        code, meta = gen_program(rng)
+    for i in range(nprog):
+        code, meta = gen_program(rng, i)
         tasks.append({"code": code, "seed": rng.getrandbits(30), "iters": iters, "want": want, "family": meta["family"],
-                      "seconds": ctx.budget(8, 40)})
-    timeout = ctx.budget(150, 600)
-    box = {}
+                      "seconds": seconds})
+    timeout = tiered(ctx, 50, 90, 400)
+    box_s = float(os.environ.get("C08_BOX") or tiered(ctx, 150, 330, 1300))
+    deadline = time.time() + box_s
+    box = {"box_s": box_s, "t0": time.time()}
 
     def work():
         try:
-            box["results"] = run_many("analyse", tasks, timeout)
+            box["results"] = run_many("analyse", tasks, timeout, deadline=deadline)
         except BaseException as e:  # noqa
             box["error"] = e
+        box["t1"] = time.time()
     th = threading.Thread(target=work, daemon=True)
     th.start()
     return tasks, timeout, th, box
@@ -1603,7 +1675,7 @@ def judge_program(task, r):
     """The property itself, per program, from the child's report: -> (list of (key, what), outcome label)."""
     fam = task.get("family", "program")
     st = r.get("status")
-    if st in ("generator-invalid", "timeout"):
+    if st in ("generator-invalid", "timeout", "cutoff", "not-run"):
         return [], st
     if r.get("nonterminating"):
         nt = r["nonterminating"]
@@ -1615,7 +1687,10 @@ def judge_program(task, r):
     if perr:
         if r.get("ref_accepts", 0) > 0:
             stage = "relations" if r.get("infer_error") else "prune"
-            return [(f"feasible-program-rejected:{stage}:{perr[0]}",
+            import re as _re
+            fn = _re.findall(r", in (\w+)", perr[2] or "")
+            where = (":" + fn[-1]) if fn else ""
+            return [(f"feasible-program-rejected:{stage}:{perr[0]}{where}",
                      f"the program compiles and has accepted samples without pruning ({r['ref_accepts']} in "
                      f"{r['ref_iters']} iterations) but compiling with pruning raises {perr[0]}: {perr[1]}")], \
                 f"pruned-compile-raised:{perr[0]}"
@@ -1672,9 +1747,10 @@ def programs_finish(ctx, handle):
     totals = {"accepted": 0, "checked": 0, "undecided": 0, "pruned_checked": 0}
     summaries = []
     ctx.extra["program_summaries"] = summaries
+    cut = {"cutoff": 0, "not-run": 0}
     for task, r in zip(tasks, results):
         fam = task["family"]
-        if len(summaries) < 80:
+        if len(summaries) < 80 and r.get("status") != "not-run":
             summaries.append({"family": fam, "status": r.get("status"), "stage": r.get("stage"),
                               "conditioned": r.get("conditioned"), "checkable": r.get("checkable"),
                               "unpruned": {k: v for k, v in (r.get("unpruned") or {}).items() if k != "outside"},
@@ -1693,6 +1769,9 @@ def programs_finish(ctx, handle):
         if st == "timeout":
             ctx.notes.append(f"program timed out after {r['after']} s (undecided): {task['code'][:120]!r}")
             continue
+        if st in ("cutoff", "not-run"):
+            cut[st] += 1
+            continue
         ctx.case(("program", task["code"]), nontrivial=bool(r.get("conditioned")))
         if r.get("stage") == "done":
             un, pr = r["unpruned"], r["pruned"]
@@ -1709,6 +1788,14 @@ def programs_finish(ctx, handle):
         for key, what in verdicts:
             if ctx.violation(key, what, dict(rep, traceback=(r.get("pruned_error") or [None, None, None])[2])):
                 found = True
+    totals["programs_generated"] = len(tasks)
+    totals["programs_analysed"] = len(tasks) - cut["cutoff"] - cut["not-run"]
+    totals["time_box_s"] = box["box_s"]
+    totals["phase_s"] = round(box.get("t1", time.time()) - box["t0"], 1)
+    if cut["cutoff"] or cut["not-run"]:
+        ctx.notes.append(f"program phase time box ({box['box_s']:.0f} s) reached: {totals['programs_analysed']} of {len(tasks)} "
+                         f"generated programs analysed, {cut['cutoff']} cut off while running, {cut['not-run']} not started "
+                         "(no verdict for those)")
     ctx.extra["program_oracle"] = totals
     return found
 
